@@ -449,3 +449,18 @@ _add('C03', 'STAGE V (appended to Props/C03W.lean): several groups AND re-wiring
      'exists (shared_levels_untypable) and Quiescent is only evaluated on the concrete run (shared_levels_run_quiescent). Still outside: '
      'batchers at nesting depth >= 2 (F14), connected shared levels, create.')
 CLAIMED['C03']['note'] = BASE_NOTE + ' Partial: closed-world theorem for scope S5R (several groups, rewiring in scripts and from outside, typed envelope); creation, batchers at nesting depth >= 2 and connected shared nesting levels by probe and correspondence. Known finding F14 (nested groups with batches crossing group boundaries). "run returns": per-scenario watchdog.'
+
+_add('C13', 'Props/C13Q.lean (class Static\' + Init + InitQ: no pass / release event of a device in the initial queue, no part budget on '
+     'processors -- both clauses shown necessary: initq_needed, budget_clause_needed): invariant QI in every reachable world (qi_run); '
+     'down_is_quiet (while a processor is down no live pass-part, release or finish event of it is pending; its paused finish events are '
+     'exactly the timer of the part in process; while it is operational none of its events is paused), no_own_event_fires_while_down, '
+     'reservation_kept_while_down / reservation_kept_run (across every step in which the machine is down before and after, its reservation '
+     'changes only by its own live failure: the release-event exception of C13W.Inert is gone). Not proved: the exact list of events paused '
+     'by a maintenance shutdown; the positive restore_queues_pass without the C03W invariant.')
+_add('C18', 'SCHEDULERS CREATED WHILE RUNNING (Props/C18D.lean; class SD = C18W.Static without its script clause + C20W.Reg + scripts and outside '
+     'operations that may create schedulers (schedNew: no negative duration), maintainers and a cms; anchor map A: creation time per scheduler): '
+     'wd_reachable, anchor_initial, anchor_created_step, anchor_created_outside (a scheduler created between two runs is anchored at the end of '
+     'the previous run), pending_transition_dyn (exactly one live transition event per scheduler, initial or created, due at A s + T k), '
+     'records_timetable_prefix_dyn, transition_step_dyn, late_equals_early_shifted (the schedule of a scheduler created at tc is the schedule '
+     'of the same scheduler created before the start, shifted by tc); necessity: schedNew_needed, idOK_needed. Creation of devices, groups and '
+     'sensors is outside this class.')
